@@ -8,7 +8,9 @@ import ShVerif.Proofs.C21
   Where the code does not do what bash does, the full statement is kept as a `def …_statement`, the
   theorem `…_partial` carries the exact extra hypothesis, and the negation of the full statement is
   proved on a concrete witness (the same witnesses are replayed on the Go code from
-  corpus/C21-known.txt on every run).
+  corpus/C21-known.txt on every run).  Statements that became true with the fix: commits of
+  2026-09-22 (cb62620 … 82103d3) are full theorems now; `pinned_…` lemmas keep the former
+  counter-examples as regression facts.
 -/
 namespace ShVerif.C21
 open Spec
@@ -48,64 +50,46 @@ theorem length (x : Ext) (cfg : Cfg) (env : Env) (name s ifs : Str)
     paramExp x cfg env { name := name, length := true } = .ok (itoa s.length, env) :=
   length_scalar_eq x cfg env name s ifs hifs hp hv
 
-/-- `${#a[@]}` and `${#a[*]}` of an indexed array are its number of elements. -/
-theorem length_list_partial (x : Ext) (cfg : Cfg) (env : Env) (name ifs : Str) (l : List Str) (star : Bool)
+/-- `${#a[@]}` and `${#a[*]}` of an indexed array are its number of elements … -/
+theorem length_list (x : Ext) (cfg : Cfg) (env : Env) (name ifs : Str) (l : List Str) (star : Bool)
     (hifs : ifsOf env = .ok ifs) (hp : Plain name) (hv : env.get name = Var.ofList l) :
     paramExp x cfg env { name := name, idx := if star then .star else .at, length := true }
       = .ok (itoa l.length, env) :=
   length_list_eq x cfg env name ifs l star hifs hp hv
 
-/-- The same for every array, associative ones included. -/
-def length_list_statement : Prop :=
-  ∀ (x : Ext) (cfg : Cfg) (env : Env) (name ifs : Str) (m : List (Str × Str)),
-    ifsOf env = .ok ifs → Plain name → env.get name = Var.ofMap m →
-    paramExp x cfg env { name := name, idx := .at, length := true } = .ok (itoa m.length, env)
+/-- … and of an associative array its number of entries (fixed by ed26a21). -/
+theorem length_assoc (x : Ext) (cfg : Cfg) (env : Env) (name ifs : Str) (m : List (Str × Str)) (star : Bool)
+    (hifs : ifsOf env = .ok ifs) (hp : Plain name) (hv : env.get name = Var.ofMap m) :
+    paramExp x cfg env { name := name, idx := if star then .star else .at, length := true }
+      = .ok (itoa m.length, env) :=
+  length_assoc_eq x cfg env name ifs m star hifs hp hv
 
-/-- finding C21-assoc-list-joined-count: `declare -A x=([a]=1 [k]=2); ${#x[@]}` is 1 -/
-theorem length_assoc_counterexample :
+/-- former finding C21-assoc-list-joined-count: `declare -A x=([a]=1 [k]=2); ${#x[@]}` is 2 -/
+theorem pinned_assoc_count :
     paramExp xLit {} [(xN, Var.ofMap [(['a'], ['1']), (['k'], ['2'])])] { name := xN, idx := .at, length := true }
-      = .ok (['1'], [(xN, Var.ofMap [(['a'], ['1']), (['k'], ['2'])])]) := by decide
-
-theorem length_list_statement_false : ¬ length_list_statement := by
-  intro h
-  have := h xLit {} [(xN, Var.ofMap [(['a'], ['1']), (['k'], ['2'])])] xN (sOf " \t\n")
-    [(['a'], ['1']), (['k'], ['2'])] (by decide) (by decide) (by decide)
-  rw [length_assoc_counterexample] at this
-  exact absurd this (by decide)
+      = .ok (['2'], [(xN, Var.ofMap [(['a'], ['1']), (['k'], ['2'])])]) := by decide
 
 /-! ## `substring` -/
 
 /-- `${x:off:len}` of a set scalar, offsets and lengths in characters, negative offsets counted
-    from the end (beyond the start: empty), lengths clamped, negative lengths as end positions:
-    whenever bash's substring is defined, the code returns it. -/
-theorem substring_partial (x : Ext) (cfg : Cfg) (env : Env) (name s ifs : Str) (off len : Option Int) (r : Str)
-    (hifs : ifsOf env = .ok ifs) (hp : Plain name) (hv : env.get name = Var.ofStr s)
-    (h : Spec.substring s off len = some r) :
-    paramExp x cfg env { name := name, slice := some (off, len) } = .ok (r, env) := by
-  rw [slice_scalar_eq x cfg env name s ifs off len hifs hp hv, sliceStr_spec s off len r h]
+    from the end (beyond the start: empty), lengths clamped, negative lengths as end positions: the
+    code returns bash's substring where it is defined and the error `substring expression < 0`
+    exactly where bash raises it (fixed by 0dc986b). -/
+theorem substring (x : Ext) (cfg : Cfg) (env : Env) (name s ifs : Str) (off len : Option Int)
+    (hifs : ifsOf env = .ok ifs) (hp : Plain name) (hv : env.get name = Var.ofStr s) :
+    paramExp x cfg env { name := name, slice := some (off, len) } =
+      match Spec.substring s off len with
+      | some r => .ok (r, env)
+      | none => .error (.substr (len.getD 0)) := by
+  rw [slice_scalar_eq x cfg env name s ifs off len hifs hp hv, sliceStr_spec]
+  unfold sliceExpect
+  cases Spec.substring s off len <;> rfl
 
-/-- … and it is an error exactly when bash says `substring expression < 0`. -/
-def substring_statement : Prop :=
-  ∀ (x : Ext) (cfg : Cfg) (env : Env) (name s ifs : Str) (off len : Option Int),
-    ifsOf env = .ok ifs → Plain name → env.get name = Var.ofStr s →
-    match Spec.substring s off len with
-    | some r => paramExp x cfg env { name := name, slice := some (off, len) } = .ok (r, env)
-    | none => ∃ e, paramExp x cfg env { name := name, slice := some (off, len) } = .error e
-
-/-- finding C21-negative-length: `x=abc; ${x:2:-2}` is `c` -/
-theorem substring_counterexample :
+/-- former finding C21-negative-length (value part): `x=abc; ${x:2:-2}` is an error -/
+theorem pinned_negative_length :
     Spec.substring (sOf "abc") (some 2) (some (-2)) = none ∧
     paramExp xLit {} [(xN, Var.ofStr (sOf "abc"))] { name := xN, slice := some (some 2, some (-2)) }
-      = .ok (['c'], [(xN, Var.ofStr (sOf "abc"))]) := by decide
-
-theorem substring_statement_false : ¬ substring_statement := by
-  intro h
-  have := h xLit {} [(xN, Var.ofStr (sOf "abc"))] xN (sOf "abc") (sOf " \t\n") (some 2) (some (-2))
-    (by decide) (by decide) (by decide)
-  rw [substring_counterexample.1] at this
-  obtain ⟨e, he⟩ := this
-  rw [substring_counterexample.2] at he
-  cases he
+      = .error (.substr (-2)) := by decide
 
 /-- Unicode: the positions are characters, not bytes. -/
 example : paramExp xLit {} [(xN, Var.ofStr (sOf "héllo"))] { name := xN, slice := some (some (-4), some 2) }
@@ -114,44 +98,19 @@ example : paramExp xLit {} [(xN, Var.ofStr (sOf "héllo"))] { name := xN, slice 
 /-! ## `remove_prefix_suffix` -/
 
 /-- `${x#p} ${x##p} ${x%p} ${x%%p}` on a set scalar: what is removed is a prefix / suffix that the
-    pattern matches, the shortest / longest such, and nothing is removed only if none matches —
-    provided the value has no newline when the operator is `%`. -/
-theorem remove_prefix_suffix_partial (x : Ext) (cfg : Cfg) (env : Env) (name s ifs arg : Str) (op : ExpOp)
+    pattern matches, the shortest / longest such, and nothing is removed only if none matches
+    (for every value, newlines included: fixed by cb62620). -/
+theorem remove_prefix_suffix (x : Ext) (cfg : Cfg) (env : Env) (name s ifs arg : Str) (op : ExpOp)
     (m : Str → Bool) (hifs : ifsOf env = .ok ifs) (hp : Plain name) (hv : env.get name = Var.ofStr s)
-    (hop : isRemove op = true) (hM : x.M arg = .ok m)
-    (hnl : op = .remSmallSuf → '\n' ∉ s) :
+    (hop : isRemove op = true) (hM : x.M arg = .ok m) :
     ∃ r, paramExp x cfg env { name := name, exp := some (op, arg) } = .ok (r, env) ∧
-      RemovalSpec m s (op == .remSmallSuf || op == .remLargeSuf) (op == .remSmallPre || op == .remSmallSuf) r := by
-  refine ⟨_, remove_scalar_eq x cfg env name s ifs arg op m hifs hp hv hop hM, ?_⟩
-  apply removeWith_spec
-  intro h1 h2
-  apply hnl
-  cases op <;> simp_all [isRemove]
+      RemovalSpec m s (op == .remSmallSuf || op == .remLargeSuf) (op == .remSmallPre || op == .remSmallSuf) r :=
+  ⟨_, remove_scalar_eq x cfg env name s ifs arg op m hifs hp hv hop hM, removeWith_spec m s _ _⟩
 
-def remove_prefix_suffix_statement : Prop :=
-  ∀ (x : Ext) (cfg : Cfg) (env : Env) (name s ifs arg : Str) (op : ExpOp) (m : Str → Bool),
-    ifsOf env = .ok ifs → Plain name → env.get name = Var.ofStr s → isRemove op = true → x.M arg = .ok m →
-    ∃ r, paramExp x cfg env { name := name, exp := some (op, arg) } = .ok (r, env) ∧
-      RemovalSpec m s (op == .remSmallSuf || op == .remLargeSuf) (op == .remSmallPre || op == .remSmallSuf) r
-
-/-- finding C21-suffix-newline: `x=$'cb\ncb'; ${x%c*}` is empty -/
-theorem remove_suffix_newline_counterexample :
+/-- former finding C21-suffix-newline: `x=$'cb\ncb'; ${x%c*}` is `cb` + newline -/
+theorem pinned_suffix_newline :
     paramExp xCStar {} [(xN, Var.ofStr (sOf "cb\ncb"))] { name := xN, exp := some (.remSmallSuf, sOf "c*") }
-      = .ok ([], [(xN, Var.ofStr (sOf "cb\ncb"))]) := by decide
-
-theorem remove_prefix_suffix_statement_false : ¬ remove_prefix_suffix_statement := by
-  intro h
-  obtain ⟨r, h1, h2⟩ := h xCStar {} [(xN, Var.ofStr (sOf "cb\ncb"))] xN (sOf "cb\ncb") (sOf " \t\n") (sOf "c*")
-    .remSmallSuf (fun u => u.head? == some 'c') (by decide) (by decide) (by decide) (by decide) rfl
-  rw [remove_suffix_newline_counterexample] at h1
-  cases h1
-  rcases h2 with ⟨u, hu, _, hmin⟩ | ⟨hs, _⟩
-  · have hmin' := hmin (sOf "cb") (sOf "cb\n") (by decide) (by decide)
-    simp only [Removes] at hu hmin'
-    have : u = sOf "cb\ncb" := by simpa using hu.symm
-    subst this
-    revert hmin'; decide
-  · revert hs; decide
+      = .ok (sOf "cb\n", [(xN, Var.ofStr (sOf "cb\ncb"))]) := by decide
 
 /-! ## `replace` -/
 
@@ -334,7 +293,7 @@ def indirect_then_op_statement : Prop :=
   ∀ (x : Ext) (cfg : Cfg) (env : Env) (name n v ifs : Str) (off : Int),
     ifsOf env = .ok ifs → Plain name → env.get name = Var.ofStr n → n ≠ [] → (env.get n).string = .ok v →
     paramExp x cfg env { name := name, excl := true, slice := some (some off, none) }
-      = .ok (sliceStr v (some off) none, env)
+      = (sliceStr v (some off) none).map (fun r => (r, env))
 
 def indEnv : Env := [(yN, Var.ofStr (sOf "hello")), (rN, Var.ofStr yN)]
 
@@ -367,6 +326,28 @@ theorem transform_ops (x : Ext) (cfg : Cfg) (env : Env) (name s ifs : Str)
   · intro q hq
     rw [other_scalar_eq x cfg env name s ifs _ hifs hp hv]
     simp [otherOp, hq, Except.map]
+
+/-- `${x@Q}` of an unset parameter is nothing (fixed by 0f29e88). -/
+theorem quote_of_unset (x : Ext) (env : Env) (name ifs : Str)
+    (hifs : ifsOf env = .ok ifs) (hp : Plain name) (hv : env.get name = Var.zero) :
+    paramExp x {} env { name := name, exp := some (.other, ['Q']) } = .ok ([], env) := by
+  simp [paramExp, hifs, hv, effIdx, hp.1, hp.2, isAtStar, Idx.lit, varInd, varIndNone, Var.string, Var.zero,
+    otherOp, bind, Except.bind, pure, Except.pure]
+
+/-- `${x/p/w}` of an unset parameter is nothing, whatever the pattern (fixed by f702dff). -/
+theorem replace_of_unset (x : Ext) (env : Env) (name ifs : Str) (r : Repl)
+    (hifs : ifsOf env = .ok ifs) (hp : Plain name) (hv : env.get name = Var.zero) :
+    paramExp x {} env { name := name, repl := some r } = .ok ([], env) := by
+  simp [paramExp, hifs, hv, effIdx, hp.1, hp.2, isAtStar, Idx.lit, varInd, varIndNone, Var.string, Var.zero,
+    bind, Except.bind, pure, Except.pure]
+
+/-- `"${m[@]}"` of an associative array: the values (sorted) as separate fields, none when it is
+    empty (fixed by 0ab856c). -/
+theorem quoted_at_assoc (x : Ext) (cfg : Cfg) (env : Env) (name ifs : Str) (m : List (Str × Str))
+    (hifs : ifsOf env = .ok ifs) (hp : Plain name) (hv : env.get name = Var.ofMap m) :
+    fields x cfg env { name := name, idx := .at } true = .ok (sortStrs (m.map (·.2)), env) := by
+  simp [fields, quotedElemFields, listElems, hifs, hv, hp.1, hp.2, isAtStar, Idx.lit, perElemOps,
+    addElemsQuoted_fields, bind, Except.bind, pure, Except.pure]
 
 /-- The case table on the letters of the generators' alphabet. -/
 example : (sOf "aé ǅz").map toUpper = sOf "AÉ ǄZ" ∧ (sOf "AÉǅ").map toLower = sOf "aéǆ" := by decide
